@@ -20,6 +20,8 @@
 (*  [k|->"clihash", inputs, lines, libhash]        `poly hash inputs`: lines = [hash, path] pairs       *)
 (*  [k|->"clipipe", what, same]                    pipe mode output equals the composition of the       *)
 (*     library calls the command stands for                                                             *)
+(*  [k|->"variantserr", s, err]                  variants.AllVariantsIUPAC on a string with a letter    *)
+(*     that is no IUPAC nucleotide code (outside the domain of C11): an error, wherever the letter is    *)
 EXTENDS PolyJson, CodonTables, Cli, Sequences, Json, CSV, IOUtils
 Trace == ndJsonDeserialize(IOEnv.TRACEFILE)
 VARIABLES l
@@ -48,6 +50,9 @@ Judge(e) ==
       [] e.k = "clihash" ->
            IF {<<e.lines[i][2], e.lines[i][1]>> : i \in 1..Len(e.lines)} = {<<e.inputs[i], e.libhash[i]>> : i \in 1..Len(e.inputs)} /\ Len(e.lines) = Len(e.inputs)
            THEN "ok" ELSE "poly hash: not exactly one '<seqhash>  <path>' line per input file"
+      [] e.k = "variantserr" ->
+            IF (\E i \in 1..Len(e.s) : UpC(SubSeq(e.s, i, i)) \notin Codes) /\ ~e.err
+            THEN "AllVariantsIUPAC accepts a letter that is not an IUPAC nucleotide code" ELSE "ok"
       [] e.k = "clipipe" -> IF e.same THEN "ok" ELSE "poly " \o e.what \o " (pipe mode) differs from the composition of the library calls"
       [] e.k = "codonjson" ->
            LET want == [c \in Codons |-> <<Code[e.id][c], FromSparse(e.w)[c]>>] IN
